@@ -1397,7 +1397,9 @@
         (if (null? ls) x (lp (gcd2 x (car ls)) (cdr ls))))))
 
 (define (lcm2 a b)
-  (abs (quotient (* a b) (gcd a b))))
+  (if (and (= a 0) (= b 0))
+      (* a b)
+      (abs (quotient (* a b) (gcd a b)))))
 
 (define (lcm . args)
   (if (null? args)
